@@ -184,5 +184,10 @@ def run_shard(ctx):
                 ctx.violation(case, str(v))
                 return
     n = 150 if ctx.tier == "quick" else 4000
-    ctx.run_given(pvcase.cases(ks=(2, 3), loops_required=True),
-                  lambda c: run_case(c, ctx), n, shrinker=pvcase.shrinker)
+    from hypothesis import strategies as st
+    ctx.run_given(st.one_of(
+        pvcase.cases(ks=(2, 3), loops_required=True),
+        pvcase.cases(ks=(2, 3), loops_required=True),
+        pvcase.cases(ks=(2, 3), loops_required=True, empty_break=True,
+                     adjacent=True)),
+        lambda c: run_case(c, ctx), n, shrinker=pvcase.shrinker)
